@@ -867,33 +867,7 @@ def _dispatch(prog, chk, Y4, supported, enum):
                           '%s yields %s, expected %s: a Database2 file that carries a 1.x triple is handed to the 2.x '
                           'table layer under a 1.x schema id' % (inst, sorted(map(str, got)), sorted(map(str, want))))
 
-    # --- create_database / create_temporary_database route by the boundary
-    for name in ('create_database', 'create_temporary_database'):
-        g = prog.func(NS + name)
-        chk.analysed(g)
-        sp = [p for p in g.params if 'engine_schema' in (p.get('type') or '')]
-        if not sp:
-            raise AnalysisBroken(name + ': no engine_schema parameter')
-        bad = []
-        for en, val in enum.items():
-            ev = Evaluator(prog, g, None)
-            outs = ev.run({sp[0]['id']: Enum(en, val)})
-            got = set()
-            for o in outs:
-                if o.kind == 'return':
-                    got.add(_which_impl(prog, g, o))
-                else:
-                    got.add(o.kind)
-            want = {'v2'} if val >= enum[boundary] else {'v1'}
-            if got != want:
-                bad.append((en, got, want))
-        if bad:
-            for en, got, want in bad:
-                chk.violation(Y4, '%s|%s' % (name, en), locstr(g.node),
-                              '%s(%s) builds %s, expected %s' % (name, en, sorted(got), sorted(want)))
-        else:
-            chk.ok(Y4, '%s routes all %d enumerators by the generation boundary' % (name, len(enum)),
-                   locstr(g.node))
+    create_dispatch(prog, chk, Y4, enum, boundary)
     # --- the v1 loader reaches detect_schema too
     es = [x for x in prog.functions.values()
           if x.qualname.endswith('v1::(anon)::load_existing')]
@@ -933,6 +907,41 @@ def _dispatch(prog, chk, Y4, supported, enum):
             chk.violation(Y4, '%s|handlers' % name, locstr(g.node),
                           '%s catches %s; it must catch exactly database_not_found so that an '
                           'unsupported or inconsistent library is still reported' % (name, norm))
+
+
+def create_dispatch(prog, chk, Y4, enum=None, boundary='schema_2_18_0'):
+    """create_database / create_temporary_database hand every enumerator to the library class of its generation
+    (finite evaluation over all enumerators, 3.0.0 included: it has a creator and a reference dump).  Shared with
+    C12: a library created through the other generation's class is not the reference schema of its version and
+    is not recognised on load."""
+    if enum is None:
+        enum = prog.enums.get(schemas.ENUM) or {}
+    for name in ('create_database', 'create_temporary_database'):
+        g = prog.func(NS + name)
+        chk.analysed(g)
+        sp = [p for p in g.params if 'engine_schema' in (p.get('type') or '')]
+        if not sp:
+            raise AnalysisBroken(name + ': no engine_schema parameter')
+        bad = []
+        for en, val in enum.items():
+            ev = Evaluator(prog, g, None)
+            outs = ev.run({sp[0]['id']: Enum(en, val)})
+            got = set()
+            for o in outs:
+                if o.kind == 'return':
+                    got.add(_which_impl(prog, g, o))
+                else:
+                    got.add(o.kind)
+            want = {'v2'} if val >= enum[boundary] else {'v1'}
+            if got != want:
+                bad.append((en, got, want))
+        if bad:
+            for en, got, want in bad:
+                chk.violation(Y4, '%s|%s' % (name, en), locstr(g.node),
+                              '%s(%s) builds %s, expected %s' % (name, en, sorted(got), sorted(want)))
+        else:
+            chk.ok(Y4, '%s routes all %d enumerators by the generation boundary' % (name, len(enum)),
+                   locstr(g.node))
 
 
 def _ret_class(o):
